@@ -40,8 +40,18 @@ func c11exec(j run.Job, a *run.Acc) {
 			fs = parsley.NewFileSet()
 		}
 		var pf []parsley.File
+		unnamed := -1 // at most one file of the set has an empty name: its positions render as "line:column"
+		if len(raws) > 0 && len(raws)%3 == 0 {
+			unnamed = len(raws) / 2
+		}
+		nameOf := func(i int) string {
+			if i == unnamed {
+				return ""
+			}
+			return fmt.Sprintf("f%d", i)
+		}
 		for i, b := range raws {
-			f := text.NewFile(fmt.Sprintf("f%d", i), b)
+			f := text.NewFile(nameOf(i), b)
 			files = append(files, f)
 			pf = append(pf, f)
 			if incremental {
@@ -77,6 +87,9 @@ func c11exec(j run.Job, a *run.Acc) {
 			line, col := 1, 1
 			for off := 0; off <= len(c); off++ {
 				want := fmt.Sprintf("f%d:%d:%d", i, line, col)
+				if i == unnamed {
+					want = fmt.Sprintf("%d:%d", line, col)
+				}
 				if prev, dup := exp[pos+off]; dup {
 					a.Violate("oracle-overlap", "oracle-overlap", desc(map[string]any{"pos": pos + off, "a": prev, "b": want}))
 				}
